@@ -539,6 +539,53 @@ func classifyPlain(info *types.Info, st *ast.ReturnStmt) string {
 // A condition that is not a nil test of an error-typed variable makes the success path non-linear: ok=false and the
 // offending condition is returned.
 func (g *Graph) SuccessPath() (nodes []ast.Node, offending ast.Node, ok bool) {
+	return g.SuccessPathWith(nil)
+}
+
+// failsStraight: from b control reaches, without branching, a return whose last result is not the nil identifier, or a call
+// that never returns.
+func (g *Graph) failsStraight(b *cfg.Block) bool {
+	seen := map[*cfg.Block]bool{}
+	for b != nil && !seen[b] {
+		seen[b] = true
+		for _, n := range b.Nodes {
+			if ret, ok := n.(*ast.ReturnStmt); ok {
+				if len(ret.Results) == 0 {
+					return false
+				}
+				last := ret.Results[len(ret.Results)-1]
+				tv, ok := g.Info.Types[last]
+				if !ok || !isErrorType(tv.Type) || isNilIdent(g.Info, last) {
+					return false
+				}
+				// a freshly made error (a call or a literal), not a variable that may be nil
+				switch x := ast.Unparen(last).(type) {
+				case *ast.CallExpr, *ast.CompositeLit, *ast.UnaryExpr:
+					return true
+				case *ast.SelectorExpr:
+					// a package-level sentinel (io.ErrUnexpectedEOF)
+					if v, ok := g.Info.Uses[x.Sel].(*types.Var); ok && !v.IsField() && v.Parent() == v.Pkg().Scope() {
+						return true
+					}
+				}
+				return false
+			}
+		}
+		if len(b.Succs) == 0 {
+			return endsInNoReturn(g.Info, b)
+		}
+		if len(b.Succs) != 1 {
+			return false
+		}
+		b = b.Succs[0]
+	}
+	return false
+}
+
+// SuccessPathWith is SuccessPath with two extensions: conditions the oracle decides (a boolean parameter bound at the call
+// site, say) are followed accordingly, and a condition one side of which leads straight to a freshly made error (a
+// defensive check) is followed on its other side.
+func (g *Graph) SuccessPathWith(atom func(ast.Expr) Tri) (nodes []ast.Node, offending ast.Node, ok bool) {
 	b := g.Entry()
 	seen := map[*cfg.Block]bool{}
 	for b != nil {
@@ -554,6 +601,24 @@ func (g *Graph) SuccessPath() (nodes []ast.Node, offending ast.Node, ok bool) {
 			}
 			nodes = append(nodes, b.Nodes[:n-1]...)
 			edge := g.cleanEdge(cond)
+			if edge < 0 && atom != nil {
+				switch EvalCond(g.CondExpr(cond), atom) {
+				case True:
+					edge = 0
+				case False:
+					edge = 1
+				}
+			}
+			if edge < 0 {
+				f0, f1 := g.failsStraight(b.Succs[0]), g.failsStraight(b.Succs[1])
+				if f0 != f1 {
+					if f0 {
+						edge = 1
+					} else {
+						edge = 0
+					}
+				}
+			}
 			if edge < 0 {
 				return nodes, cond, false
 			}
